@@ -203,7 +203,7 @@ def obligations(tier):
     from . import c13
     from ..oblig_dense import DOb
     for ob in c13.obligations(tier):
-        if isinstance(ob, DOb) and ob.function.endswith((":hals_nnls", ":fista")):
+        if isinstance(ob, DOb) and ob.function.endswith((":hals_nnls", ":fista")) and "cold start" not in ob.name:   # (the cold-start obligation is about definedness of the default iterate, no sign clause)
             def claims(I, out, ob=ob):
                 sel = [c for c in ob.claims(I, out) if ">= eps" in c[0]]
                 assert sel, "sign clause missing"
